@@ -2,7 +2,7 @@
    Print Assumptions.  Costs are integers (dyadic floats scaled by 2^30; 2^-26 is 16). *)
 From Coq Require Import ZArith List Bool.
 From Centro Require Import Base.Sx Model.Lapjv Spec.Lapjv Proofs.LapjvCert Proofs.LapjvRefute Proofs.LapjvTrack
-  Proofs.LapjvPhases Proofs.LapjvAbstract Proofs.LapjvGrid Proofs.LapjvArr Proofs.LapjvRows Proofs.LapjvTrackCost Proofs.LapjvRt Proofs.LapjvHall Proofs.LapjvBsearch Proofs.LapjvTrackLink Proofs.LapjvArrExt Proofs.LapjvExtModel Proofs.LapjvAugMarks Proofs.LapjvAugFlip Proofs.LapjvAugPred Proofs.LapjvAugRows Proofs.LapjvPerm Proofs.LapjvFixedPerm Proofs.LapjvAugFuel Proofs.LapjvAugPrice Proofs.LapjvAugStamps Proofs.LapjvAugOpt.
+  Proofs.LapjvPhases Proofs.LapjvAbstract Proofs.LapjvGrid Proofs.LapjvArr Proofs.LapjvRows Proofs.LapjvTrackCost Proofs.LapjvRt Proofs.LapjvHall Proofs.LapjvBsearch Proofs.LapjvTrackLink Proofs.LapjvArrExt Proofs.LapjvExtModel Proofs.LapjvAugMarks Proofs.LapjvAugFlip Proofs.LapjvAugPred Proofs.LapjvAugRows Proofs.LapjvPerm Proofs.LapjvFixedPerm Proofs.LapjvAugFuel Proofs.LapjvAugPrice Proofs.LapjvAugStamps Proofs.LapjvAugOpt Proofs.LapjvAugDist Proofs.LapjvAugDistHyp.
 Import ListNotations.
 Open Scope Z_scope.
 
@@ -426,6 +426,42 @@ Theorem C01_lapjv_fixed_optimal_if_returns_partial : forall n tri,
   lapjv Fixed 0 epsr k n tri = Some (x, y, u, v) -> Optimal n tri x.
 Proof. exact lapjv_fixed_optimal_if_returns. Qed.
 Print Assumptions C01_lapjv_fixed_optimal_if_returns_partial.
+
+(* aug_dist_inv (round 8): DistHyp is a THEOREM.  Loop-head invariant K of Proofs.LapjvAugDist (umin <= inf; d finite; ready
+   d <= umin; scan d = umin; other columns d >= umin; untouched columns d = inf; stamps exact; tight pred links; assigned),
+   edge inequalities kept through monotonicity of d; no bound d <= sum(c) is used. *)
+Theorem C01_aug_dist_inv : forall (n : nat) (rows : list (list (nat * ext))) (I : Z),
+  (forall i j c, In (j, c) (row rows i) -> (j < n)%nat /\ exists z, c = Fin z) ->
+  (forall i, NoDup (map fst (row rows i))) ->
+  DistHyp n rows (Fin I).
+Proof. exact aug_dist_inv. Qed.
+Print Assumptions C01_aug_dist_inv.
+
+(* "returns => optimal" (Full for inputs with >= 2 candidates per row): whenever the (Fixed, eps 0 at :202, any eps >= 0 at
+   :208, any k) model returns, x is a minimum-cost perfect matching.  What remains per-instance only: that it returns
+   (aug_scan_nonempty unconditional / the price bound), and rows with a single candidate (-inf prices). *)
+Theorem C01_lapjv_fixed_optimal : forall n tri,
+  (forall t, In t tri -> (t_i t < n)%nat /\ (t_j t < n)%nat) ->
+  NoDup (map fst tri) ->
+  (forall j, (j < n)%nat -> exists t, In t tri /\ t_j t = j) ->
+  has_PM n tri ->
+  (forall i, (i < n)%nat -> (2 <= length (filter (fun t => (t_i t =? i)%nat) tri))%nat) ->
+  forall epsr k x y u v, 0 <= epsr ->
+  lapjv Fixed 0 epsr k n tri = Some (x, y, u, v) -> Optimal n tri x.
+Proof. exact lapjv_fixed_optimal. Qed.
+Print Assumptions C01_lapjv_fixed_optimal.
+
+(* the same with the eps band ON for costs on a grid coarser than eps (e.g. (Fixed, 2^-26) on integer costs) *)
+Theorem C01_lapjv_fixed_optimal_grid : forall n tri g eps epsr k x y u v,
+  (forall t, In t tri -> (t_i t < n)%nat /\ (t_j t < n)%nat) ->
+  NoDup (map fst tri) ->
+  (forall j, (j < n)%nat -> exists t, In t tri /\ t_j t = j) ->
+  has_PM n tri ->
+  (forall i, (i < n)%nat -> (2 <= length (filter (fun t => (t_i t =? i)%nat) tri))%nat) ->
+  0 <= eps < g -> 0 <= epsr < g -> (forall t, In t tri -> (g | t_c t)) ->
+  lapjv Fixed eps epsr k n tri = Some (x, y, u, v) -> Optimal n tri x.
+Proof. exact lapjv_fixed_optimal_grid. Qed.
+Print Assumptions C01_lapjv_fixed_optimal_grid.
 
 (* completeness of phases 1-3 (every row is pending or assigned) ... *)
 Theorem C01_phase1_comp : forall n tri,
